@@ -23,7 +23,7 @@ type SkipCase struct {
 	Deps    [][2]int   `json:"deps"`
 	FileDep []string   `json:"file_dep"` // per task: "" none, else a file or glob
 	Steps   []SkipStep `json:"steps"`
-	// SpokLink: the project's spokfile is a symbolic link to ../shared/real.spok; the project (globs,
+	// SpokLink: the project's spokfile is a symbolic link to ../shared/spokfile; the project (globs,
 	// literal files, cache) is still the directory the link is in, not the one its target is in
 	SpokLink bool `json:"spok_link,omitempty"`
 }
@@ -144,7 +144,7 @@ func execSkip(id string, s *ev.Shard, b *sandbox.Box, c SkipCase) *rp.Fail {
 		outside[strings.TrimPrefix(f, "../")] = "v0"
 	}
 	if c.SpokLink {
-		outside["shared/real.spok"] = src
+		outside["shared/spokfile"] = src
 	}
 	if err := writeProject(b, b.Home, outside); err != nil {
 		return &rp.Fail{Sig: "harness", Msg: err.Error()}
@@ -152,7 +152,7 @@ func execSkip(id string, s *ev.Shard, b *sandbox.Box, c SkipCase) *rp.Fail {
 	if c.SpokLink {
 		lp := filepath.Join(b.Proj, "spokfile")
 		_ = os.Remove(lp)
-		if err := os.Symlink(filepath.Join("..", "shared", "real.spok"), lp); err != nil {
+		if err := os.Symlink(filepath.Join("..", "shared", "spokfile"), lp); err != nil {
 			return &rp.Fail{Sig: "harness", Msg: err.Error()}
 		}
 		_ = b.Own()
@@ -207,7 +207,7 @@ func execSkip(id string, s *ev.Shard, b *sandbox.Box, c SkipCase) *rp.Fail {
 		}
 		r := b.Run(cwd, env, runTimeout, args...)
 		log := readLog(logPath)
-		desc := fmt.Sprintf("spokfile%s:\n%sstep %d of %+v: `spok %s` from %s (exit %d, log %v)", map[bool]string{true: " (a symbolic link to ../shared/real.spok)"}[c.SpokLink], src, si, c.Steps, strings.Join(args, " "), map[bool]string{true: "nested/dir", false: map[bool]string{true: "another directory with --spokfile", false: "the project root"}[st.Elsewhere]}[st.Nested], r.Exit, log)
+		desc := fmt.Sprintf("spokfile%s:\n%sstep %d of %+v: `spok %s` from %s (exit %d, log %v)", map[bool]string{true: " (a symbolic link to ../shared/spokfile)"}[c.SpokLink], src, si, c.Steps, strings.Join(args, " "), map[bool]string{true: "nested/dir", false: map[bool]string{true: "another directory with --spokfile", false: "the project root"}[st.Elsewhere]}[st.Nested], r.Exit, log)
 		if r.Exit != 0 {
 			return &rp.Fail{Sig: "valid-run-failed", Size: size, Msg: desc + ": " + sandbox.Strip(r.Stderr)}
 		}
